@@ -615,12 +615,11 @@ class DFA(fa.FA):
             if start_state in reachable_states:
                 for symbol in input_symbols:
                     end_state = path.get(symbol)
-                    if end_state is not None:
-                        symbol_dict = transition_back_map[symbol]
-                        # If statement here needed to ignore certain transitions
-                        # for non-reachable states
-                        if end_state in symbol_dict:
-                            symbol_dict[end_state].append(start_state)
+                    symbol_dict = transition_back_map[symbol]
+                    # Transitions into states that are not kept (dead states of
+                    # a partial DFA) behave like missing transitions
+                    if end_state is not None and end_state in symbol_dict:
+                        symbol_dict[end_state].append(start_state)
                     else:
                         # Add trap state if needed
                         if trap_state is None:
